@@ -327,6 +327,12 @@ class ArgumentParser(ParserDeprecations, ActionsContainer, ArgumentLinking, argp
 
         return cfg, unk
 
+    def _check_value(self, action, value):
+        """Choices of an argument with a type hint are tested on the adapted value (_check_value_key), not on the raw string."""
+        if isinstance(action, ActionTypeHint) and action.choices is not None:
+            return
+        super()._check_value(action, value)
+
     def _parse_optional(self, arg_string):
         subclass_arg = ActionTypeHint.parse_argv_item(arg_string)
         if subclass_arg:
